@@ -6,13 +6,14 @@
       PVgen.Gen_HamEigenValue    gen_eigenvalue_part, gen_eigenvalue_index                  Hamiltonian::getEigenValue (+ getPart, HamiltonianPart::getEigenValue)
       PVgen.Gen_HamEigenValues   gen_eigenvalues_size / _blocks / _part / _offset0 / _copy / _next      Hamiltonian::getEigenValues
       PVgen.Gen_HPartCompute     gen_hp_compute_cases, gen_hp_compute_otherwise             HamiltonianPart::compute
-      PVgen.Gen_HPartPrepare     gen_hprep_shape / _zeroed / _sources / _cell               HamiltonianPart::prepare
+      PVgen.Gen_HPartPrepare     gen_hprep_shape / _zeroed / _sources / _cell / _skip / _skip_read    HamiltonianPart::prepare
       PVgen.Gen_HamPrepareBcast  gen_ham_prepare_...                                        Hamiltonian::prepare(comm)
       PVgen.Gen_HamComputeBcast  gen_ham_compute_...                                        Hamiltonian::compute(comm)
 
     Below every function of PV.HPart that one of these describes is written once more, loop for loop as in HPart.v, with the
     GENERATED range / index / case list / cell in the place of the hand-written one ([..._src]); the inner pieces that the
-    translator does not describe (Operator::actRight = HPart.act_map, the inner loop of prepare = HPart.hpart_column, the label
+    translator does not describe (Operator::actRight = HPart.act_map, S.getInnerState(bra) and the bounds-checked write of the inner
+    loop of prepare, the label
     look-ups of StatesClassification, Eigen's minCoeff = HPart.min_coeff) are shared with HPart.v.  The broadcast loops of
     Hamiltonian::prepare(comm) / compute(comm) have no counterpart in HPart.v (its theorems are about one process): a small
     model of "what a rank that did not run a part holds after the loop" is given here ([ham_compute_receive], ...).
@@ -118,6 +119,28 @@ Definition hpart_compute_src (H : mat K) (solver : list K * mat K) : option (lis
     Every iteration of the outer loop writes only cells whose "source" coordinate is the loop variable: one line of the matrix
     (HPart.hpart_column: the image of the ket, S.getInnerState(bra), the bounds-checked write).  The generated cell convention
     says whether that line is a column (H(position of bra, position of ket), what HPart.v has) or a row. *)
+(** The inner loop once more, as HPart.hpart_column, with the statements the translator found in FRONT of the store: an entry of
+    the image for which the generated test [gen_hprep_skip] holds is not stored (`if (std::abs(melem) < 1e-8) continue;` and the
+    like: the block is then no longer the Hamiltonian restricted to the block); a test that could not be read is
+    [Throws ex_unmodelled].  HPart.v stores every entry. *)
+Definition lit_src (m e : Z) : K :=                 (* the decimal literal m * 10^e *)
+  if (0 <=? e)%Z then nmul K NO (nofZ K NO m) (nofZ K NO (10 ^ e)%Z)
+  else ndiv K NO (nofZ K NO m) (nofZ K NO (10 ^ (- e))%Z).
+
+Definition hpart_column_src (S : classification) (p : poly K) (n : nat) (ket : nat) : outcome (list K) :=
+  bind (act_map K NO eps (sc_M S) p ket) (fun entries =>
+    fold_left (fun acc e =>
+      bind acc (fun col =>
+        if negb gen_hprep_skip_read then Throws ex_unmodelled
+        else if gen_hprep_skip K ltb (nabs K NO) lit_src eps (snd e) then Done col
+        else
+          bind (getInnerState fb S (fst e)) (fun left_st =>
+            match set_nth col left_st (snd e) with
+            | Some col' => Done col'
+            | None => OOB
+            end)))
+      entries (Done (repeat 0 n))).
+
 Definition hpart_prepare_src (S : classification) (p : poly K) (b : nat) : outcome (mat K) :=
   bind (getFockStates S b) (fun states =>
     let n := length states in
@@ -126,12 +149,12 @@ Definition hpart_prepare_src (S : classification) (p : poly K) (b : nat) : outco
       match gen_hprep_cell with
       | (PosOfResultState, PosOfSourceState) =>
         bind (outcome_map (fun r => match nth_error states r with
-                                    | Some ket => hpart_column fb K NO eps S p (fst shape) ket
+                                    | Some ket => hpart_column_src S p (fst shape) ket
                                     | None => OOB end) (gen_hprep_sources n))
              (fun cols => Done (rows_of_columns K NO (fst shape) cols))
       | (PosOfSourceState, PosOfResultState) =>
         outcome_map (fun r => match nth_error states r with
-                              | Some ket => hpart_column fb K NO eps S p (snd shape) ket
+                              | Some ket => hpart_column_src S p (snd shape) ket
                               | None => OOB end) (gen_hprep_sources n)
       | _ => Throws ex_unmodelled
       end
